@@ -13,6 +13,7 @@ def run(rep, fb, tier):
     jsonrules.rule_json_writer_result(rep, fb)
     jsonrules.rule_json_flag(rep, fb)
     jsonrules.rule_json_substitution(rep, fb)
+    jsonrules.rule_json_parameters(rep, fb)
     builder.rule_builder_table(rep, fb)
     builder.rule_arraybuilder_update(rep, fb)
     forward.rule_same_name(rep, fb, select=lambda f: f["name"] in ("tojson_part", "tojson", "tojson_string", "tojson_boolean", "tojson_integer", "tojson_real", "tojson_complex") or f["file"].endswith("io/json.cpp"), floor=30, name="FORWARD.same-name:json")
@@ -32,4 +33,5 @@ def run(rep, fb, tier):
     _pr4.rule_py_bytes_str_arms(rep)
     from ..rules import binding as _bd
     _bd.rule_def_arg_order(rep, fb)
+    __import__("vf.rules.binding", fromlist=["x"]).rule_stride_division(rep, fb)
     rep.units = fb.units
